@@ -52,9 +52,17 @@ LEVEL_TEXT = ('Coq theorems over an executable Gallina model of Irc.addCallback/
               'constraints, Owner first) by induction over histories, failed operations leave a permutation on the stated domain; command resolution '
               '(findCallbacksForArgs/finalEval): only commands of registered callbacks resolve, invalid iff nobody has it, plugin-qualified form never '
               'shadowed, bare form = holders narrowed by the three documented rules; all Irc objects see one list (table lemma callbacks_never_rebound).  Tied to the source by regenerated shape tables and a per-operation differential run.')
-LEVEL_NOTE = ('Trusted: Coq kernel, gen_tables/t20.py, extraction + OCaml driver, the Python harness; str.lower is a Section variable; '
-              'Python code is modelled not verified; command dispatch itself (C14) is not modelled: the command-set clause is checked directly on the live bot '
-              'and in the model reduces to membership in the registered list.')
+LEVEL_NOTE = ('Trusted: Coq kernel, gen_tables/t20.py, extraction + OCaml driver, the Python harness; str.lower and callbacks.canonicalName are Section variables; '
+              'Python code is modelled not verified.  NOT modelled (gap audit): (1) command renames (Owner.rename/unrename, supybot.commands.renames re-applied by '
+              'plugin.loadPluginClass on the CLASS): probed clean across reload/unload/load, but a stored rename whose target the new code defines makes '
+              'loadPluginClass assert, i.e. a replace-phase failure of reload (known finding C20.F21) and a plugin that can then be neither loaded nor unrenamed; '
+              '(2) the persisted flag supybot.plugins.<Name> (probed: follows load/unload, stays True after a C20.F21 loss) and Owner._loadPlugins, which at every new '
+              'network connect loads whatever is flagged and not registered; (3) disabled commands and plugins with sub-command groups in command resolution; '
+              'tokenising/nested commands (C13/C14); (4) deprecated plugins (Deprecated is an ImportError: covered as such), entry-point plugins '
+              '(loadPluginFromEntrypoint), a plugin directory whose Class has another name than the directory, two directories differing only in case; '
+              '(5) the module-level reload(x) hook of the NEW module and reload(module.config) are inside the try block and count as "import fails"; '
+              '(6) Irc.addCallback is documented as not thread-safe: single-threaded histories only; (7) object identity of callbacks is an id counter, '
+              'callbacks with custom __eq__/__hash__ are outside the model.')
 TECHNIQUE = 'Coq proof (loop invariant over the layered extraction, for all oracles; induction over histories) + regenerated tables + extracted-model differential correspondence'
 EXPLANATION = 'C20: model of the callback list (src/irclib.py, Owner plugin); theorems in coq/C20/Props.v'
 
@@ -136,6 +144,12 @@ if _c.get('imp') == 1:
     import nonexistent_module_for_c20
 if _c.get('imp') == 2:
     raise RuntimeError('boom at import')
+def reload(x=None):
+    # the optional module-level reload() hook of a plugin module: Owner.reload calls old_module.reload() before importing the
+    # new code and new_module.reload(x) after it
+    if x is None and _ctl().get('imp') == 3:
+        raise RuntimeError('boom in the module reload() hook')
+    return 'carried-over state'
 class %(n)s(callbacks.Plugin):
     callBefore = tuple(_c.get('before', ()))
     callAfter = tuple(_c.get('after', ()))
@@ -243,7 +257,7 @@ def impl_step(e, world, op, h=0):
         except Exception as ex:
             return ['raise', exn_class(ex)]
     name = op[1]
-    sp = spec_of(world, name)
+    sp = spec_of(world, name[:-3] if (k == 'load' and name.endswith('.py')) else name)     # Owner.load strips '.py'
     syn = sp is not None and sp[0] in SYN_PLUGINS
     flags = {'load': lambda: dict(imp=op[2], init=op[3]), 'unload': lambda: dict(die=op[2]),
              'reload': lambda: dict(imp=op[2], init=op[3], die=op[4])}[k]()
@@ -386,7 +400,7 @@ def spec_update(want, world, op, reply):
         return want - {op[1].lower()}
     n = op[1].lower()
     if k in ('boot', 'load'):
-        sp = spec_of(world, op[1])
+        sp = spec_of(world, op[1][:-3] if (k == 'load' and op[1].endswith('.py')) else op[1])
         return want | {sp[0].lower()} if (ok and sp is not None) else want
     if k == 'unload':
         return want - {n} if n != 'owner' else want
@@ -757,14 +771,16 @@ def gen_live(rng, bundled_ok):
     for _ in range(rng.randint(2, 12)):
         x = variant(rng.choice(pool if rng.random() < 0.75 else cands))
         r = rng.random()
-        fail = style == 'failing' and rng.random() < 0.4 and x.capitalize() in SYN_PLUGINS   # failures are injected into synthetic plugins only
+        if r < 0.5 and rng.random() < 0.08:
+            x += '.py'                               # Owner.load strips it
+        fail = style == 'failing' and rng.random() < 0.4 and x.replace('.py', '').capitalize() in SYN_PLUGINS   # failures are injected into synthetic plugins only
         if r < 0.5:
             imp = rng.choice([1, 2, 0]) if fail else 0
             ops.append(['load', x, imp, int(fail and imp == 0)])
         elif r < 0.75:
             ops.append(['unload', x, int(fail)])
         else:
-            imp = rng.choice([1, 1, 2, 0, 0]) if fail else 0
+            imp = rng.choice([1, 1, 2, 3, 0, 0]) if fail else 0      # 3: the old module's reload() hook raises
             init = int(fail and imp == 0 and rng.random() < 0.5)
             die = int(fail and imp == 0 and not init)
             ops.append(['reload', x, imp, init, die])
@@ -806,6 +822,9 @@ def probe_bundled(e):
 
 
 CORPUS = [
+    # was C20.F26: the module-level reload() hook of the old module raising lost the plugin (called after removeCallback, outside the try)
+    {'world': [['Owner', 1, [], [], []], ['Alpha', 0, [], [], ['cmdalpha']]],
+     'ops': [['boot', 'Owner'], ['load', 'Alpha.py', 0, 0], ['reload', 'Alpha', 3, 0, 0], ['reload', 'alpha', 0, 0, 0], ['reload', 'Alpha.py', 0, 0, 0]]},
     # a reload whose import fails must put the old instance back UNTOUCHED (a seeded change calling die() before the import was only
     # weakly caught: the plugins held nothing that die() released, and nobody looked whether what is registered still works)
     {'world': [['Owner', 1, [], [], []], ['Alpha', 0, [], [], ['cmdalpha']], ['Beta', 0, [], [], ['cmdbeta']]],
